@@ -4,6 +4,7 @@ CONSTANTS
   BkExact = FALSE
   DevF9 = FALSE
   DevIIdxAll = FALSE
+  DevCreateStale = FALSE
   AsIs = FALSE
 CONSTRAINT HW
 POSTCONDITION Accepted
